@@ -1008,3 +1008,104 @@ def g_spline_cubic(repo):
 
 GROUPS += [("SplineQuadratic", g_spline_quadratic, ["nflows/transforms/splines/quadratic.py"]),
            ("SplineCubic", g_spline_cubic, ["nflows/transforms/splines/cubic.py", "nflows/utils/torchutils.py"])]
+
+
+# ---------------------------------------------------------------- elementwise nonlinearities
+def _method_block(src, cls, meth, prefix, free, attrs, outputs, skip_src=(), skip=(), minmax_var="inputs"):
+    """translate a forward/inverse method: leading `if <guard>: raise InputOutsideDomain()` statements become
+    <prefix>_rejects, the rest a let-chain"""
+    m = src.method(cls, meth)
+    body = [s for s in m.body if not (isinstance(s, ast.Expr) and isinstance(s.value, ast.Constant))]
+    defs = []
+    rest = []
+    guards = []
+    for st in body:
+        if isinstance(st, ast.If) and len(st.body) == 1 and isinstance(st.body[0], ast.Raise):
+            exc = st.body[0].exc
+            nm = exc.func.id if isinstance(exc, ast.Call) else getattr(exc, "id", None)
+            if nm != "InputOutsideDomain" or st.orelse:
+                raise Untranslatable("%s.%s: unexpected raise" % (cls, meth), st)
+            guards.append(st.test)
+        else:
+            rest.append(st)
+    if len(guards) > 1:
+        raise Untranslatable("%s.%s: more than one domain guard" % (cls, meth), m)
+    if guards:
+        defs.append(guard_def(prefix + "_rejects", guards[0], [],
+                              {("min", minmax_var): "mn", ("max", minmax_var): "mx"}, attrs=attrs))
+    defs += block_defs(prefix, rest, free, outputs, attrs=attrs, skip_src=skip_src, skip=skip)
+    return defs, bool(guards)
+
+
+def g_nonlin(repo):
+    src = Source(repo, "nflows/transforms/nonlinearities.py")
+    defs = []
+    has_guard = {}
+    for cls, pre, attrs in (("Exp", "exp", {}), ("Tanh", "tanh", {}), ("CauchyCDF", "cauchy", {}),
+                            ("Sigmoid", "sigm", {"temperature": "a_temperature", "eps": "a_eps"})):
+        for meth, br in (("forward", "fwd"), ("inverse", "inv")):
+            d, g = _method_block(src, cls, meth, "%s_%s" % (pre, br), ["inputs"], attrs, ["ret0", "ret1"])
+            # attrs become extra binders: rewrite the binder list
+            if attrs:
+                extra = " ".join(sorted(set(attrs.values())))
+                d = [(n, t.replace("(v_inputs : T)", "(v_inputs %s : T)" % extra)) for n, t in d]
+            defs += d
+            has_guard[(cls, meth)] = g
+    for (cls, meth), want in {("Exp", "inverse"): True, ("Tanh", "inverse"): True, ("Sigmoid", "inverse"): True,
+                               ("CauchyCDF", "inverse"): True, ("Exp", "forward"): False, ("Tanh", "forward"): False,
+                               ("Sigmoid", "forward"): False, ("CauchyCDF", "forward"): False}.items():
+        defs.append(("guarded_%s_%s" % (cls, meth), "Definition guarded_%s_%s : bool := %s.\n"
+                     % (cls, meth, "true" if has_guard[(cls, meth)] else "false")))
+    # LogTanh: three pieces selected by masks
+    attrs = {"cut_point": "a_cut_point", "inv_cut_point": "a_inv_cut_point", "alpha": "a_alpha", "beta": "a_beta"}
+    extra = " ".join(["a_alpha", "a_beta", "a_cut_point", "a_inv_cut_point"])
+    for meth, br in (("forward", "fwd"), ("inverse", "inv")):
+        m = src.method("LogTanh", meth)
+        d, _ = _method_block(
+            src, "LogTanh", meth, "logtanh_" + br, ["inputs", "outputs"], attrs,
+            ["outputs_at_mask_middle", "outputs_at_mask_right", "outputs_at_mask_left",
+             "logabsdet_at_mask_middle", "logabsdet_at_mask_right", "logabsdet_at_mask_left"],
+            skip_src=["mask_middle = ~(mask_right | mask_left)", "outputs = torch.zeros_like(inputs)",
+                      "logabsdet = torch.zeros_like(inputs)",
+                      "logabsdet = torchutils.sum_except_batch(logabsdet, num_batch_dims=1)",
+                      "return (outputs, logabsdet)"] +
+            [ast.unparse(s_) for s_ in m.body if isinstance(s_, ast.Assign) and ast.unparse(s_.targets[0]) in ("mask_right", "mask_left")],
+            skip=["outputs"])
+        d = [(n, t.replace("(v_inputs v_outputs : T)", "(v_inputs v_outputs %s : T)" % extra)) for n, t in d]
+        defs += d
+        for mk in ("mask_right", "mask_left"):
+            node = [s_ for s_ in m.body if isinstance(s_, ast.Assign) and ast.unparse(s_.targets[0]) == mk]
+            if len(node) != 1:
+                raise Untranslatable("LogTanh.%s: %s" % (meth, mk), m)
+            g = guard_def("logtanh_%s_%s" % (br, mk), node[0].value, ["inputs"], {}, attrs=attrs)
+            defs.append(g)
+    # LogTanh constants (constructor)
+    init = src.method("LogTanh", "__init__")
+    cattrs = {"alpha": "a_alpha"}
+    for st in init.body:
+        if isinstance(st, ast.Assign) and ast.unparse(st.targets[0]) in ("self.inv_cut_point", "self.alpha", "self.beta"):
+            nm = ast.unparse(st.targets[0]).split(".")[1]
+            tr = ExprTr({"cut_point": "v_cut_point"}, attrs=cattrs)
+            defs.append(("logtanh_const_" + nm,
+                         "Definition logtanh_const_%s {T : Type} (O : ops T) (v_cut_point a_alpha : T) : T :=\n  %s.\n" % (nm, tr.tr(st.value))))
+    # LeakyReLU log-det: log_negative_slope * mask, mask = (inputs < 0)
+    for meth, br in (("forward", "fwd"), ("inverse", "inv")):
+        m = src.method("LeakyReLU", meth)
+        txt = [ast.unparse(s_) for s_ in m.body]
+        slope = "self.negative_slope" if meth == "forward" else "1 / self.negative_slope"
+        if txt[0] != "outputs = F.leaky_relu(inputs, negative_slope=%s)" % slope:
+            raise Untranslatable("LeakyReLU.%s: output form `%s`" % (meth, txt[0]), m)
+        if not txt[1].startswith("mask = (inputs < 0)"):
+            raise Untranslatable("LeakyReLU.%s: mask form `%s`" % (meth, txt[1]), m)
+        lad = [s_ for s_ in m.body if isinstance(s_, ast.Assign) and ast.unparse(s_.targets[0]) == "logabsdet"][0]
+        tr = ExprTr({"mask": "v_mask"}, attrs={"log_negative_slope": "a_log_negative_slope"})
+        defs.append(("lrelu_%s_lad" % br, "Definition lrelu_%s_lad {T : Type} (O : ops T) (v_mask a_log_negative_slope : T) : T :=\n  %s.\n"
+                     % (br, tr.tr(lad.value))))
+    # GatedLinearUnit
+    for meth, br in (("forward", "fwd"), ("inverse", "inv")):
+        d, _ = _method_block(src, "GatedLinearUnit", meth, "glu_" + br, ["inputs", "context"], {}, ["ret0", "ret1"])
+        defs += d
+    return defs, ""
+
+
+GROUPS += [("Nonlin", g_nonlin, ["nflows/transforms/nonlinearities.py"])]
